@@ -15,7 +15,7 @@ from .. import simcache as sc
 
 PROP = "C08"
 MODES = ["Serial", "OpenMP"]
-KINDS = ["string", "file"]
+KINDS = ["string", "file", "raw"]
 PRES = ["cold", "vendor", "edited"]
 
 
